@@ -529,7 +529,20 @@ class Item:
             else:
                 raise ExtractError(f"{self.path}::{self.name}: unsupported for-pattern `{pat_s}` in `{expr_s}` (R1)")
             before = "".join(x.text for x in toks[i:brace + 1])
-            new = "".join(x.text for x in toks[:i]) + head + " {" + first + "".join(x.text for x in toks[brace + 1:])
+            # a loop label (`'outer: for ..`) must stay attached to the loop, not to the counter declaration
+            start = i
+            pj = i - 1
+            while pj >= 0 and toks[pj].kind == "ws":
+                pj -= 1
+            if pj >= 1 and toks[pj].kind == "punct" and toks[pj].text == ":":
+                pk = pj - 1
+                while pk >= 0 and toks[pk].kind == "ws":
+                    pk -= 1
+                if pk >= 0 and toks[pk].kind == "lifetime":
+                    label = toks[pk].text
+                    head = head.replace("\n while ", f"\n {label}: while ", 1)
+                    start = pk
+            new = "".join(x.text for x in toks[:start]) + head + " {" + first + "".join(x.text for x in toks[brace + 1:])
             self.log.append({"rule": "R1", "what": f"`{_short(before)}` -> `{head} {{{first}` (counter {ctr}; "
                                                     f"increment placed before the body so `continue` keeps its meaning)"})
             self.text = new
